@@ -3,6 +3,7 @@ package main
 import (
 	"fmt"
 	"go/token"
+	"go/types"
 	"math"
 	"strings"
 
@@ -243,6 +244,7 @@ func ruleConfigAgreement(c *Ctx) {
 		} else {
 			var keyVal ssa.Value
 			var appends []*ssa.Call
+			var emits []ssa.Value // the values added to the reply per iteration, in order
 			var lookup *ssa.Call
 			var lookupKey ssa.Value
 			// isKey: a load of keys[i] for the same index value as the first such load (go/ssa
@@ -269,6 +271,20 @@ func ruleConfigAgreement(c *Ctx) {
 						n := calleeName(call.Common())
 						if strings.HasSuffix(n, "Message).Append") {
 							appends = append(appends, call)
+							if mk, ok := strip(call.Common().Args[1]).(*ssa.Call); ok && len(mk.Common().Args) == 1 {
+								emits = append(emits, mk.Common().Args[0])
+							} else {
+								emits = append(emits, call.Common().Args[1])
+							}
+						}
+						// strings collected with append(acc, a, b) and turned into the reply afterwards
+						if bi, ok := call.Common().Value.(*ssa.Builtin); ok && bi.Name() == "append" && len(call.Common().Args) == 2 {
+							if st, ok := call.Type().Underlying().(*types.Slice); ok && isStringType(st.Elem()) {
+								if elems, ok := arrayLitElems(strip(call.Common().Args[1])); ok {
+									appends = append(appends, call)
+									emits = append(emits, elems...)
+								}
+							}
 						}
 						if strings.HasSuffix(n, "Config).ConfigString") {
 							lookup = call
@@ -306,11 +322,11 @@ func ruleConfigAgreement(c *Ctx) {
 			if lookup == nil || keyVal == nil || !isKey(lookupKey) {
 				problems = append(problems, "the value is not looked up under the iterated key")
 			}
-			if len(appends) < 2 {
+			if len(emits) < 2 {
 				problems = append(problems, "key and value are not both appended")
 			} else {
 				first := appends[0]
-				if mk, ok := strip(first.Common().Args[1]).(*ssa.Call); !ok || len(mk.Common().Args) != 1 || !isKey(mk.Common().Args[0]) {
+				if !isKey(emits[0]) {
 					problems = append(problems, "the first element appended per key is not the key")
 				}
 				for _, a := range appends[1:] {
